@@ -535,6 +535,23 @@ class CallMixin:
             self.hstore(s, r, 'elems', v.arrays[0])
             self.hstore(s, r, 'len', v.n)
             return [(r, s)]
+        plc = getattr(self, 'pair_list_class', None)
+        if isinstance(v, SGen) and plc is not None and len(v.arrays) == 2:
+            # list(generator of pairs): a fresh list of n fresh 2-cell records (a block of n new addresses), record j = item j
+            pc = plc.e.arg
+            s = st.copy()
+            r = self.new_ref(s, plc)
+            base = s.alloc
+            s.alloc = s.alloc + v.n
+            j = z3.Int(s.fresh.name('jp'))
+            q = z3.Int(s.fresh.name('qp'))
+            self.hstore(s, r, 'elems', z3.Lambda([j], base + j))
+            self.hstore(s, r, 'len', v.n)
+            for k in (0, 1):
+                key = (pc.name, str(k))
+                old = self.heap_arr(s, pc, str(k))
+                s.heap[key] = z3.Lambda([q], z3.If(z3.And(q >= base, q < base + v.n), z3.Select(v.arrays[k], q - base), z3.Select(old, q)))
+            return [(r, s)]
         if isinstance(v, SVal):      # list(opaque iterable): a real list - every traversal sees the same items
             c = self.fresh(st, 'opaque_list', Val)
             self.stable_lists.add(c.get_id())
